@@ -61,7 +61,7 @@ impl Driver for BuiltFunctions {
         "C12"
     }
     fn rule(&self) -> &'static str {
-        "tape -> valid G-static module M whose last local function F is referenced by nothing -> base = M without F -> F is rebuilt through FunctionBuilder (signature, add_local per local with the returned LocalID checked, every instruction injected as an Operator, optional set_name), finish_module, optional export on the returned ID -> encode -> validate -> the decoded output must equal the decoded M (which contains F natively) in every entity, plus the name/export requested. Non-trivial: F has >=1 local and >=3 instructions and the base has other content (>=1 other function or an export added). Distinct = hash of M."
+        "tape -> valid G-static module M whose last local function F is referenced by nothing -> base = M without F -> F is rebuilt through FunctionBuilder (signature, add_local per local with the returned LocalID checked, every instruction injected as an Operator, optional set_name), finish_module (one time in four: the base wrapped in a component and finish_component(comp, ModuleID(0)), the module taken out of the encoded component), optional export on the returned ID -> encode -> validate -> the decoded output must equal the decoded M (which contains F natively) in every entity, plus the name/export requested. Non-trivial: F has >=1 local and >=3 instructions and the base has other content (>=1 other function or an export added). Distinct = hash of M."
     }
     fn tape_len(&self) -> usize {
         3072
@@ -136,6 +136,12 @@ impl Driver for BuiltFunctions {
         let named = fname.is_some() && c.t.chance(3, 4);
         let export = c.t.chance(1, 3);
         c.note(|| format!("FULL MODULE (last function is rebuilt through the builder; named={} export={})\n{}", named, export, dm::print_wat(&full)));
+        // one time in four the base sits in a component and the builder finishes with
+        // finish_component(comp, ModuleID(0)); the module is then taken out of the encoded component
+        let via_comp = c.t.chance(1, 4);
+        if via_comp {
+            return self.run_via_component(c, &gm, &full, &base_bytes, &f, &params, &results, &ops, fname, named, export, last_idx);
+        }
         let mut module = match lib_parse(&base_bytes, true) {
             Ok(m) => m,
             Err(o) => return o,
@@ -212,6 +218,101 @@ impl Driver for BuiltFunctions {
         c.class(if named { "named" } else { "unnamed" });
         if !f.locals.is_empty() && f.body.len() >= 4 && (gm.funcs.len() >= 2 || export) {
             c.nontrivial(fnv(&full));
+        }
+        Outcome::Pass
+    }
+}
+
+impl BuiltFunctions {
+    #[allow(clippy::too_many_arguments)]
+    fn run_via_component(
+        &self,
+        c: &mut Case,
+        gm: &crate::gen::GModule,
+        full: &[u8],
+        base_bytes: &[u8],
+        f: &crate::gen::GFunc,
+        params: &[VT],
+        results: &[VT],
+        ops: &[wasmparser::Operator],
+        fname: Option<String>,
+        named: bool,
+        export: bool,
+        last_idx: u32,
+    ) -> Outcome {
+        let comp_bytes = super::c03::wrap_component(base_bytes, false, 1);
+        let mut comp = match run_lib(|| wirm::Component::parse(&comp_bytes, true)) {
+            Ok(Ok(x)) => x,
+            Ok(Err(e)) => return fail("component-parse-err", format!("{:?}", e)),
+            Err(p) => return panic_fail("component-parse", &p),
+        };
+        let pd: Vec<DataType> = params.iter().map(|v| dt(*v)).collect();
+        let rd2: Vec<DataType> = results.iter().map(|v| dt(*v)).collect();
+        let n_ops = ops.len();
+        let r = run_lib(|| {
+            let mut b = FunctionBuilder::new(&pd, &rd2);
+            for l in f.locals.iter() {
+                b.add_local(dt(*l));
+            }
+            for (i, o) in ops.iter().enumerate() {
+                if i + 1 == n_ops {
+                    break;
+                }
+                b.inject(o.clone());
+            }
+            if named {
+                b.set_name(fname.clone().unwrap());
+            }
+            b.finish_component(&mut comp, ModuleID(0))
+        });
+        let fid = match r {
+            Ok(x) => x,
+            Err(p) => return panic_fail("builder:finish_component", &p),
+        };
+        if *fid != last_idx {
+            return fail("returned-id:finish_component", format!("finish_component returned FunctionID {} but the function is expected at {}", *fid, last_idx));
+        }
+        if export {
+            comp.modules[0].exports.add_export_func("built".into(), *fid, None);
+        }
+        let out_comp = match run_lib(|| comp.encode()) {
+            Ok(b) => b,
+            Err(p) => return panic_fail("component-encode", &p),
+        };
+        let items = match crate::dec::component::decode(&out_comp) {
+            Ok(i) => i,
+            Err(e) => return fail("undecodable-output:component", e),
+        };
+        let Some(out) = items.iter().find_map(|i| if let crate::dec::component::CItem::Module(b) = i { Some(b.clone()) } else { None }) else {
+            return fail("module-missing-in-component", "the encoded component has no core module".to_string());
+        };
+        if let Err(e) = dm::validate(&out) {
+            c.note(|| format!("OUTPUT\n{}", dm::print_wat(&out)));
+            return fail(format!("invalid-output:{}", mask(e.split(" (at offset").next().unwrap_or(&e), 50)), e);
+        }
+        let mut want = match dm::decode(full) {
+            Ok(d) => d,
+            Err(e) => return fail("harness:decode", e),
+        };
+        if !named {
+            want.names.funcs.remove(&last_idx);
+        }
+        want.names.locals.retain(|(fi, _), _| *fi != last_idx);
+        want.names.labels.retain(|(fi, _), _| *fi != last_idx);
+        if export {
+            want.exports.push(("built".into(), "func".into(), last_idx));
+        }
+        let got = match dm::decode(&out) {
+            Ok(d) => d,
+            Err(e) => return fail("undecodable-output", e),
+        };
+        if let Some(o) = diff_fail(&flat_trivial(&want), &flat_trivial(&got), "built-via-component") {
+            c.note(|| format!("OUTPUT\n{}", dm::print_wat(&out)));
+            return o;
+        }
+        c.class("finished_with_finish_component");
+        if !f.locals.is_empty() && f.body.len() >= 4 && (gm.funcs.len() >= 2 || export) {
+            c.nontrivial(fnv(full) ^ 0xC0);
         }
         Outcome::Pass
     }
